@@ -5,6 +5,12 @@ use std::collections::{HashMap, HashSet};
 /// functions, and polymorphic recursion (`f<T>` calling `f<[T]>`) would never settle.
 const MAX_MONO_ROUNDS: usize = 64;
 
+/// Upper bound on the instances created in total. The round bound alone does not bound the
+/// work: an instance that calls the generic function with two different constructors around
+/// its own parameter (`f<[T]>` and `f<fn(int) -> T>`) doubles the instances every round.
+/// Like the round bound, reaching it leaves the remaining calls on the generic function.
+const MAX_MONO_INSTANCES: usize = 1024;
+
 pub fn monomorphize(mut program: AirProgram) -> AirProgram {
     let mut ctx = MonoContext::new(&program);
     ctx.collect_mono_requests(&program);
@@ -268,6 +274,9 @@ impl MonoContext {
 
             if self.instantiated.contains_key(&key) {
                 continue;
+            }
+            if self.instantiated.len() >= MAX_MONO_INSTANCES {
+                break;
             }
 
             let func_idx = self.generic_functions[&request.function_name];
